@@ -50,6 +50,13 @@ def run(ctx):
     n = 1500 if q else 15000
     progs = [T.random_program(ctx.rng, False, length=ctx.rng.choice([6, 12, 20])) for _ in range(n)]
     validate(ctx, progs, "random histories on two fresh local libraries: ordinary, duplicate, NONE, attribute/method/dunder names, arbitrary strings")
+    n = 600 if q else 6000
+    progs = [T.random_program(ctx.rng, False, length=ctx.rng.choice([3, 6, 12]), cold=True) for _ in range(n)]
+    validate(ctx, progs, "cold histories on local libraries: the first add_tag of a library precedes every other call on it (lazily created "
+                         "state does not exist yet); names read off the live library object and its class are offered too")
+    n = 100 if q else 1000
+    progs = [T.random_program(ctx.rng, True, length=ctx.rng.choice([3, 6, 12]), cold=True) for _ in range(n)]
+    validate(ctx, progs, "cold histories incl. the module-level global library, fresh interpreter per history")
     n = 300 if q else 3000
     progs = [T.random_program(ctx.rng, True, length=ctx.rng.choice([6, 12, 20])) for _ in range(n)]
     validate(ctx, progs, "random histories incl. the module-level global library and the module's own global names, fresh interpreter per history")
